@@ -1,0 +1,122 @@
+//go:build verif
+
+package kgo
+
+// Verification contracts (comments only), read by /verif/govc. Compiled only with -tags verif; no code.
+
+// ---- C12 (a): a final acknowledgement state is never overwritten, under every interleaving ----
+// shareAckState.status holds 0 (undecided), AckAccept=1, AckRelease=2, AckReject=3 (final) or AckRenew=4.
+// Every write to it anywhere in the package must be a CompareAndSwap whose expected value is 0 or AckRenew:
+// then a record that reached a final state keeps it, whatever the schedule (each successful CAS has exactly its
+// expected value as the old value). Plain stores of whole shareAckState values are allowed only where a slab is
+// built, before it is published.
+//@ audit atomic shareAckState.status
+//@   prop C12
+//@   transitions 0->*, 4->*
+//@   init-store (*source).processSharePartition
+
+// tryAck: its CompareAndSwap with a loaded expected value only ever expects 0 or AckRenew (the audit's obligation
+// is proved under the path condition of that call). Nothing is claimed about the value of the field before or
+// after the call: other goroutines may change it at any time; what holds for every schedule is which
+// transitions this function can perform. A strict acknowledgement or a renew only ever replaces 0; every
+// CompareAndSwap installs exactly the requested status; true is returned only after a successful swap.
+//@ func (st *shareAckState) tryAck(status AckStatus, strictZero bool) (ok bool)
+//@   prop C12
+//@   nopanic
+//@   site call CompareAndSwap#0 assert [strict-or-renew-from-zero] (strictZero || status == 4) && arg1 == 0 && arg2 == int32(status)
+//@   site call CompareAndSwap#1 assert [terminal-from-open] !strictZero && status != 4 && (arg1 == 0 || arg1 == 4) && arg2 == int32(status)
+//@   ensures [true-only-after-swap] ok ==> (reached($CompareAndSwap0) && $CompareAndSwap0) || (reached($CompareAndSwap1) && $CompareAndSwap1)
+
+// ---- C12 (b): acknowledgement batches built for a partition are ascending and non-overlapping ----
+// buildAckRanges sorts the user's per-record acknowledgements (entries) and the gap ranges of a drain and hands
+// them to mergeAckRanges, which produces the AcknowledgementBatches of one partition. Brokers (and kfake) reject a
+// request whose batches are not in strictly ascending, non-overlapping offset order.
+// (rangesAsc is stated pairwise: the adjacent form rs[i] < rs[i+1] is a matching loop for the solver; the
+// adjacent form asked for by the property is the j = i+1 instance and is the postcondition of buildAckRanges.)
+
+//@ spec rangesAsc(rs []shareAckRange) bool = forall i in 0..len(rs) :: forall j in 0..len(rs) :: i < j ==> rs[i].lastOffset < rs[j].firstOffset
+//@ spec rangesWF(rs []shareAckRange) bool = forall i in 0..len(rs) :: rs[i].firstOffset <= rs[i].lastOffset
+
+// coalesceAppendRange: either the last range is extended to r.lastOffset (r continues it), or r is appended;
+// every other element is untouched.
+//@ func coalesceAppendRange(out []shareAckRange, r shareAckRange) (res []shareAckRange)
+//@   prop C12
+//@   nopanic
+//@   modifies elems(out[:cap(out)])     // an in-place append writes the slot after len(out)
+//@   ensures len(res) >= 1 && res[len(res)-1].lastOffset == r.lastOffset
+//@   ensures len(res) == old(len(out)) || len(res) == old(len(out)) + 1
+//@   ensures forall i in 0..old(len(out))-1 :: res[i] == old(out[i])
+//@   ensures [merged] len(res) == old(len(out)) ==> (sameorigin(res, out) && res[len(res)-1].firstOffset == old(out[len(out)-1].firstOffset) && old(out[len(out)-1].lastOffset) + 1 == r.firstOffset)
+//@   ensures [appended] len(res) == old(len(out)) + 1 ==> (res[len(res)-1] == r && (old(len(out)) > 0 ==> res[old(len(out))-1] == old(out[len(out)-1])))
+//@   ensures [origin] sameorigin(res, out) || fresh(res)
+//   what callers use: appending a well-formed range that starts after the end of the last one keeps the list
+//   ascending and well-formed
+//@   ensures [keeps-asc] (old(rangesAsc(out)) && old(rangesWF(out)) && r.firstOffset <= r.lastOffset && (old(len(out)) > 0 ==> old(out[len(out)-1].lastOffset) < r.firstOffset)) ==> (rangesAsc(res) && rangesWF(res))
+
+// the two sort comparators (function literals of buildAckRanges) compare by offset / first offset
+//@ func buildAckRanges$1(a *shareAckState, b *shareAckState) (r int)
+//@   prop C12
+//@   pure
+//@   ensures r == ite(a.offset < b.offset, -1, ite(a.offset > b.offset, 1, 0))
+
+//@ func buildAckRanges$2(a shareAckRange, b shareAckRange) (r int)
+//@   prop C12
+//@   pure
+//@   ensures r == ite(a.firstOffset < b.firstOffset, -1, ite(a.firstOffset > b.firstOffset, 1, 0))
+
+// mergeAckRanges. Inputs of one drain of one partition, as buildAckRanges passes them: entries sorted by offset
+// (duplicates allowed), offsets >= 0; gap ranges well-formed, ascending and non-overlapping; no acknowledged
+// record's offset lies inside a gap (a gap is an offset range that holds no delivered record). Then the result is
+// ascending, non-overlapping and well-formed.
+// Invariants: everything emitted so far ends at lastOffset and before the next pending gap (outer loop); inside
+// the gap-flushing loop everything emitted ends before the entry about to be emitted and before the next pending
+// gap. ranges is a fresh array, so appending to it never touches the inputs (the [U] invariants).
+//@ func mergeAckRanges(entries []*shareAckState, gaps []shareAckRange) (ranges []shareAckRange, hasRenew bool)
+//@   prop C12
+//@   nopanic
+//@   abstract lambdaframe
+//@   requires forall i in 0..len(entries) :: entries[i] != nil && entries[i].offset >= 0
+//@   requires forall i in 0..len(entries) :: forall j in 0..len(entries) :: i < j ==> entries[i].offset <= entries[j].offset
+//@   requires forall i in 0..len(gaps) :: 0 <= gaps[i].firstOffset && gaps[i].firstOffset <= gaps[i].lastOffset
+//@   requires forall i in 0..len(gaps) :: forall j in 0..len(gaps) :: i < j ==> gaps[i].lastOffset < gaps[j].firstOffset
+//@   requires forall i in 0..len(entries) :: forall j in 0..len(gaps) :: (entries[i].offset < gaps[j].firstOffset || entries[i].offset > gaps[j].lastOffset)
+//@   ensures [ascending] rangesAsc(ranges)
+//@   ensures [well-formed] rangesWF(ranges)
+//@   loop 0 invariant [U] forall i in 0..len(entries) :: entries[i].offset == old(entries[i].offset)
+//@   loop 0 invariant [U] forall j in 0..len(gaps) :: gaps[j].firstOffset == old(gaps[j].firstOffset) && gaps[j].lastOffset == old(gaps[j].lastOffset)
+//@   loop 0 invariant ranges == nil || fresh(ranges)
+//@   loop 0 invariant rangesWF(ranges)
+//@   loop 0 invariant rangesAsc(ranges)
+//@   loop 0 invariant 0 <= gi && gi <= len(gaps) && lastOffset >= -1
+//@   loop 0 invariant len(ranges) > 0 ==> ranges[len(ranges)-1].lastOffset == lastOffset
+//@   loop 0 invariant gi < len(gaps) ==> lastOffset < atentry(gaps[gi].firstOffset)
+//@   loop 0 invariant lastOffset == -1 || (rangeindex >= 0 && lastOffset <= atentry(entries[rangeindex].offset))
+//@   loop 1 invariant [U] forall i in 0..len(entries) :: entries[i].offset == old(entries[i].offset)
+//@   loop 1 invariant [U] forall j in 0..len(gaps) :: gaps[j].firstOffset == old(gaps[j].firstOffset) && gaps[j].lastOffset == old(gaps[j].lastOffset)
+//@   loop 1 invariant ranges == nil || fresh(ranges)
+//@   loop 1 invariant rangesWF(ranges)
+//@   loop 1 invariant rangesAsc(ranges)
+//@   loop 1 invariant 0 <= gi && gi <= len(gaps) && lastOffset == atentry(e.offset)
+//@   loop 1 invariant exists k in 0..len(entries) :: e == atentry(entries[k])
+//@   loop 1 invariant gi < len(gaps) ==> (atentry(gaps[gi].firstOffset) <= atentry(gaps[gi].lastOffset) && (atentry(e.offset) < atentry(gaps[gi].firstOffset) || atentry(e.offset) > atentry(gaps[gi].lastOffset)))
+//@   loop 1 invariant len(ranges) > 0 ==> ranges[len(ranges)-1].lastOffset < atentry(e.offset)
+//@   loop 1 invariant (len(ranges) > 0 && gi < len(gaps)) ==> ranges[len(ranges)-1].lastOffset < atentry(gaps[gi].firstOffset)
+//@   loop 2 invariant [U] forall j in 0..len(gaps) :: gaps[j].firstOffset == old(gaps[j].firstOffset) && gaps[j].lastOffset == old(gaps[j].lastOffset)
+//@   loop 2 invariant ranges == nil || fresh(ranges)
+//@   loop 2 invariant rangesWF(ranges)
+//@   loop 2 invariant rangesAsc(ranges)
+//@   loop 2 invariant 0 <= gi && gi <= len(gaps)
+//@   loop 2 invariant (len(ranges) > 0 && gi < len(gaps)) ==> ranges[len(ranges)-1].lastOffset < atentry(gaps[gi].firstOffset)
+
+// buildAckRanges, the function the request builders call. For every mix of user acknowledgements and gap ranges
+// of one partition - in any order, with duplicates among the entries - where no two gaps overlap and no
+// acknowledged record's offset lies inside a gap, the batches are in ascending, non-overlapping offset order.
+//@ func buildAckRanges(entries []*shareAckState, gaps []shareAckRange) (ranges []shareAckRange, hasRenew bool)
+//@   prop C12
+//@   nopanic
+//@   requires forall i in 0..len(entries) :: entries[i] != nil && entries[i].offset >= 0
+//@   requires forall i in 0..len(gaps) :: 0 <= gaps[i].firstOffset && gaps[i].firstOffset <= gaps[i].lastOffset
+//@   requires forall i in 0..len(gaps) :: forall j in 0..len(gaps) :: i != j ==> (gaps[i].lastOffset < gaps[j].firstOffset || gaps[j].lastOffset < gaps[i].firstOffset)
+//@   requires forall i in 0..len(entries) :: forall j in 0..len(gaps) :: (entries[i].offset < gaps[j].firstOffset || entries[i].offset > gaps[j].lastOffset)
+//@   ensures [ascending-non-overlapping] forall i in 0..len(ranges)-1 :: ranges[i].lastOffset < ranges[i+1].firstOffset
+//@   ensures [well-formed] forall i in 0..len(ranges) :: ranges[i].firstOffset <= ranges[i].lastOffset
